@@ -173,6 +173,61 @@ theorem cookieGetSession_sound (env : TransM.Env) (c : TransM.CookieSessionProvi
               subst h
               exact ⟨rq, k, rfl, hc, hd⟩
 
+def evBadLogin : Event := ⟨"s.sendLoginForm", ["Invalid username or password"]⟩
+
+/-- C19 (the credentials branch of `Server.GetSession`, up to the creation of the session): the code goes on to create a session
+    only if the store holds the named user (read without error), the presented password is one that can have been set, and bcrypt
+    accepts it against that user's stored hash; every refusal is the same reply, the login form with the same message, whichever
+    check failed — and nothing else is written -/
+theorem credentialGuards_cases (env : TransI.Env) (s : TransI.Server) (w : ResponseWriter) (r : Option HTTPRequest)
+    (req : Option TransI.IdpAuthnRequest) (out : Option TransI.Session) (tr : List Event)
+    (h : TransI.credentialGuards env s w r req = .ok (out, tr)) :
+    ∃ rq, r = some rq ∧ out = none ∧
+      ((tr = [] ∧ ∃ u, env.storeGet_User ("/users/" ++ env.postFormGet rq "user") = .ok (u, none) ∧
+          env.validPassword (env.postFormGet rq "password") = .ok true ∧
+          env.bcryptCompare u.HashedPassword (env.postFormGet rq "password") = none) ∨
+       (tr = [evBadLogin] ∧
+          ((∃ u e, env.storeGet_User ("/users/" ++ env.postFormGet rq "user") = .ok (u, some e)) ∨
+           env.validPassword (env.postFormGet rq "password") = .ok false ∨
+           (∃ u, env.storeGet_User ("/users/" ++ env.postFormGet rq "user") = .ok (u, none) ∧
+              env.bcryptCompare u.HashedPassword (env.postFormGet rq "password") ≠ none)))) := by
+  cases r with
+  | none => simp [TransI.credentialGuards] at h
+  | some rq =>
+    refine ⟨rq, rfl, ?_⟩
+    unfold TransI.credentialGuards at h
+    simp only [deref_some, Outcome.ok_bind', Outcome.pure_eq_ok] at h
+    cases hu : env.storeGet_User ("/users/" ++ env.postFormGet rq "user") with
+    | err e => simp [hu] at h
+    | panic p => simp [hu] at h
+    | ok res =>
+      obtain ⟨u, ue⟩ := res
+      simp only [hu, Outcome.ok_bind'] at h
+      cases ue with
+      | some e =>
+        simp at h
+        exact ⟨h.1.symm, Or.inr ⟨h.2.symm, Or.inl ⟨u, e, rfl⟩⟩⟩
+      | none =>
+        simp only [Option.isSome_none, Bool.false_eq_true, if_false] at h
+        cases hv : env.validPassword (env.postFormGet rq "password") with
+        | err e => simp [hv] at h
+        | panic p => simp [hv] at h
+        | ok vb =>
+          simp only [hv, Outcome.ok_bind'] at h
+          cases vb with
+          | false =>
+            simp at h
+            exact ⟨h.1.symm, Or.inr ⟨h.2.symm, Or.inr (Or.inl rfl)⟩⟩
+          | true =>
+            simp only [Bool.not_true, Bool.false_eq_true, if_false] at h
+            cases hb : env.bcryptCompare u.HashedPassword (env.postFormGet rq "password") with
+            | some e =>
+              simp [hb] at h
+              exact ⟨h.1.symm, Or.inr ⟨h.2.symm, Or.inr (Or.inr ⟨u, rfl, by simp [hb]⟩)⟩⟩
+            | none =>
+              simp [hb] at h
+              exact ⟨h.1.symm, Or.inl ⟨h.2, u, rfl, rfl, hb⟩⟩
+
 theorem TransI_no_failures : TransI.transFailures = [] := by decide
 
 /-! non-vacuity -/
